@@ -774,11 +774,23 @@ static void run(const Case &c, Ctx &ctx) {
                           "element %zu: double %.17g stored as single %.17g", i, v, r.d);
                 ctx.tag(std::isnan(v) ? "float:nan" : std::isinf(v) ? "float:inf" : "float:as_single");
                 break;
-            default:
+            default: {
+                // An integral value beyond int64 that is still inside the 64-bit integer heads ([2^63, 2^64) or [-2^64, -2^63))
+                // may equally be stored as that integer: same nine bytes, nothing lost ("by numeric value").
+                const double P63 = 9223372036854775808.0, P64 = 18446744073709551616.0;
+                bool big_int = v == std::trunc(v) && ((v >= P63 && v < P64) || (v < -P63 && v >= -P64));
+                if (big_int && (r.kind == R_UINT || r.kind == R_NEGINT)) {
+                    uint64_t want_arg = v > 0 ? (uint64_t)v : (uint64_t)(-(v + 1.0));
+                    PBT_CHECK(r.kind == (v > 0 ? R_UINT : R_NEGINT) && r.arg == want_arg && r.head == 9,
+                              "element %zu: double %.17g stored as %s %" PRIu64 " with a %zu-byte head", i, v, rk_name(r.kind), r.arg, r.head);
+                    ctx.tag("float:as_64bit_integer_beyond_int64");
+                    break;
+                }
                 PBT_CHECK(r.kind == R_F64 && r.arg == w.v, "element %zu: double %.17g (bits %016" PRIx64 ") must stay a double, found %s %016" PRIx64,
                           i, v, w.v, rk_name(r.kind), r.arg);
                 ctx.tag("float:as_double");
                 break;
+            }
             }
             if (is_narrowing_boundary(v)) {
                 boundary = true;
